@@ -39,7 +39,7 @@ def checker(sc, meta, log, tr):
             continue
         if tag not in ended:
             out.append({"kind": "early search never ended", "tag": tag})
-        elif late and not streams.get(tag):
+        elif late and not streams.get(tag) and not meta.get("first_attempt_fails"):
             out.append({"kind": "a search issued before bootstrap completion came back empty although the same search issued "
                                 "30 s later finds peers", "tag": tag, "called_at": called[tag], "bootstrap_concluded_at": concluded,
                         "late": sorted(late)})
